@@ -35,8 +35,8 @@ CHECKS = {
   "Trusted: the harness. Parameters that zlib keeps across a reset (level/strategy set by deflateParams, inflateValidate) are applied to the fresh stream too; the adler field of raw inflate streams is not compared.",
   "explicit enumeration of branching call histories, differential against the unbranched execution"),
  "C16": ("model_checking",
-  "Explicit enumeration of ALL programs up to depth 3 (4-6 on reduced alphabets) over the exported compression and decompression entry points with small argument domains incl. out-of-range values, executed in lock-step on libz-rs-sys and zlib-ng 2.3.3; after every call the return code, input consumed and output bytes must be equal, and the process must never terminate. One-shot helpers and NULL-argument calls on lattices. The reference runs first in a forked child for programs on which it has C-level UB (pre-screen).",
-  "Trusted: zlib-ng 2.3.3 as oracle where it is self-consistent. Not compared, as the property lists: totals after a dictionary request, inflateMark, dictionary length, message texts; additionally inflateUndermine's own status, deflatePending/deflateBound values, deflatePrime while output is pending (the reference scrambles its own stream), inflateValidate toggled across a gzip header (reference rejects valid streams). Known finding F3 (deflatePrime bits 33..64) is reported as KNOWN-FINDING.",
+  "Explicit enumeration of ALL programs up to depth 3 (4-6 on reduced alphabets) over the exported compression and decompression entry points with small argument domains incl. out-of-range values, executed in lock-step on libz-rs-sys and zlib-ng 2.3.3; after every call the return code, input consumed and output bytes must be equal, and the process must never terminate. One-shot helpers and NULL-argument calls on lattices; an init-argument matrix ({NULL, valid stream} x 5 version strings x 5 stream_size values x legal/illegal arguments for the five *Init_ entry points); gzip headers (deflateSetHeader) and capture buffers (inflateGetHeader) replaced while a field is partly written (findings D20, D21). The reference runs first in a forked child for programs on which it has C-level UB (pre-screen).",
+  "Trusted: zlib-ng 2.3.3 as oracle where it is self-consistent. Not compared, as the property lists: totals after a dictionary request, inflateMark, dictionary length, message texts; additionally inflateUndermine's own status, deflatePending/deflateBound values, deflatePrime while output is pending (the reference scrambles its own stream), inflateValidate toggled across a gzip header (reference rejects valid streams), deflateSetHeader after the first deflate call (reference reads past the replaced field; only 'never terminates' is judged), programs on which zlib-ng disagrees with itself under differently filled allocations (it decodes through a window it never wrote). Known finding F3 (deflatePrime bits 33..64) is reported as KNOWN-FINDING.",
   "explicit enumeration of API programs up to a depth bound, lock-step conformance against the reference implementation"),
  "C06": ("model_checking",
   "Explicit enumeration of ALL call sequences up to depth 3 (4) over a 47-operation alphabet of the compression API (deflate with every flush value and boundary buffer sizes, params, tune, prime, dictionary, header, pending, bound, reset, reset-keep, copy, get-dictionary, end) on a lattice of configurations incl. illegal ones, each finished by the Finish tail; the same through the safe Rust wrappers under catch_unwind; long repetitions of single operations; C01's schedule families re-run with guard pages in both placements. Oracle: no signal/panic, documented status, cursors in bounds, hook-H3 structural invariants after every call, Finish reaches stream end within the call cap.",
